@@ -51,7 +51,12 @@ func (d *dir) ReadDir(n int) ([]hackpadfs.DirEntry, error) {
 		return nil, err
 	}
 	if n <= 0 {
-		d.offset = len(entries)
+		// all entries that remain after the ones already returned, like os.File
+		if d.offset > len(entries) {
+			d.offset = len(entries)
+		}
+		entries = entries[d.offset:]
+		d.offset += len(entries)
 		return entries, nil
 	}
 	if d.offset >= len(entries) {
